@@ -1,4 +1,5 @@
 import MdIt.Props.C10g
+import MdIt.Props.C04
 /-!
 # C04 (continued) — with raw HTML off, no raw-HTML token anywhere in the output of a whole parse
 
@@ -34,5 +35,48 @@ theorem full_no_html (cls : QCls) (ext : IExt) (lx : LExt) (bc : MCfg) (ic : ICf
     constructor <;> intro he <;> rw [he] at hmem <;> revert hmem <;>
       cases code <;> cases fence <;> cases hr <;> cases heading <;> cases htmlBlock <;> cases lheading <;> decide
   exact ⟨hnb.1, hnb.2, (hT t ht).2⟩
+
+end MdIt.C04
+
+namespace MdIt.C04
+open MdIt.C01 MdIt.C05 MdIt.C10
+
+theorem mem_descList_self (x : Tok) (cs : List Tok) (h : x ∈ cs) : x ∈ descList cs :=
+  (mem_descList x cs).2 ⟨x, h, .inl rfl⟩
+
+/-- **C04.full_render_no_raw** — `MarkdownIt.render` end to end on the modelled sub-language with the `html` option off: whatever
+rules are enabled, no piece of the rendered output is raw pass-through — every character of the HTML is either the renderer's own
+markup (tag and attribute names from the fixed vocabulary, `C04.vocab`) or input text that went through `escapeHtml`
+(`escapeHtml_no_meta`).  `full_no_html` through `no_raw`. -/
+theorem full_render_no_raw (cls : QCls) (ext : IExt) (lx : LExt) (bc : MCfg) (ic : ICfg) (hon : ic.inlineOn = true)
+    (hoff : ext.html = false) (hoffb : bc.html = false) (ws : List Nat) (mn : Int) (d : Nat) (src : List Char) (ts : List Tok)
+    (h : fullParse cls ext lx bc ic ws mn d src = .ok ts) (x : Ext) (o : ROpts) (ps : List Piece) (hr : renderP x o none ts = .ok ps) :
+    ∀ p ∈ ps, isRaw p = false := by
+  have hT := full_no_html cls ext lx bc ic hon hoff hoffb ws mn d src ts h
+  refine no_raw x o ts ps ?_ hr
+  have key : ∀ (l : List Tok), (∀ t ∈ l, t ∈ ts) → ∀ t ∈ visible l, (t.type == "html_block" || t.type == "html_inline") = false := by
+    intro l
+    induction l with
+    | nil => intro _ t ht; cases ht
+    | cons u rest ih =>
+      intro hsub t ht
+      simp only [visible, List.mem_append] at ht
+      rcases ht with ht | ht
+      · have hu := hT u (hsub u List.mem_cons_self)
+        split at ht
+        · rename_i hinl
+          have hty : u.type = "inline" := by simpa using hinl
+          cases hc : u.children with
+          | none => rw [hc] at ht; simp at ht
+          | some cs =>
+            rw [hc] at ht
+            simp only [Option.getD_some] at ht
+            have := hu.2.2 hty t (by rw [hc]; simpa only [descOpt] using mem_descList_self t cs ht)
+            simp [this.1, this.2]
+        · simp only [List.mem_singleton] at ht
+          subst ht
+          simp [hu.1, hu.2.1]
+      · exact ih (fun v hv => hsub v (List.mem_cons_of_mem _ hv)) t ht
+  exact key ts (fun t ht => ht)
 
 end MdIt.C04
